@@ -164,7 +164,8 @@ def case_st(draw):
                 elif align and draw(st.booleans()):
                     o[dd] = draw(gen.related_labels(dlabels[dd], core.label_kind(dlabels[dd]), relation=draw(st.sampled_from(["permuted", "overlapping", "subset"]))))[1]
             others.append(o)
-        p = {"others": others, "align": align, "keys": draw(st.sampled_from([None, "str"])), "sort": draw(st.booleans()) if align else False}
+        p = {"others": others, "align": align, "keys": draw(st.sampled_from([None, "str"])), "sort": draw(st.booleans()) if align else False,
+             "reorder": draw(st.booleans())}        # the later datasets hold the same variables, inserted in another order
     pre = draw(st.sampled_from(["none", "none", "warm", "derive-take", "derive-reindex", "derive-take", "derive-sort"]))
     if op == "ds-ds" and p.get("layout"):
         pre = "warm" if pre != "none" else "none"
@@ -453,7 +454,13 @@ def run_case(case):
             cl.add("ds-ds:labels-differ")
         nontrivial = len(keys) >= 2
     elif op in ("stack_ds", "concatenate_ds"):
-        dss = [ds] + [core.build_dataset(relabel(case["ds"], o)) for o in p["others"]]
+        def later(j, o):
+            sp = relabel(case["ds"], o)
+            if p.get("reorder") and len(sp["vars"]) >= 2:
+                sp = dict(sp, vars=sp["vars"][j + 1:] + sp["vars"][:j + 1] if len(sp["vars"]) > j + 1 else sp["vars"][::-1])
+                cl.add("join:variables-in-another-order")
+            return core.build_dataset(sp)
+        dss = [ds] + [later(j, o) for j, o in enumerate(p["others"])]
         kw = {}
         if p["align"]:
             kw["align"] = True
